@@ -68,7 +68,7 @@ def world():
         "s_": "", "s_a": "a", "s_aaa": "aaa", "s_abc": "abc", "s_5": "5", "s_2h": "2.5", "s_10": "10", "s_9": "9", "ssub_a": StrSub("a"),
         "by_a": b"a", "t_": (), "t_1a": (1, "a"), "t_2h5": (2.5, "5"), "t_1a1": (1, "a", 1), "t_12": (1, 2), "t_s10s9": ("10", "9"), "t_s9s10": ("9", "10"), "l_1a": [1, "a"],
         "fn": fn, "cA": A, "cB": B, "cC": C, "oA": A(), "oB": B(), "oC": C(), "mod": math, "obj": object(),
-        "pxA": weakref.proxy(_keep), "lieS": LieStr(),
+        "pxA": weakref.proxy(_keep), "lieS": LieStr(), "oSelf": None, "t_selfa": None,     # (made per holder class)
     }
     _state.update(_keep=_keep, LieStr=LieStr, np=np, A=A, B=B, C=C, toks=toks, IntSub=IntSub, FloatSub=FloatSub, StrSub=StrSub, IdxObj=IdxObj,
                   IdxRaise=IdxRaise, FltObj=FltObj, FltRaise=FltRaise, CplxObj=CplxObj, classes={})
@@ -149,6 +149,8 @@ def proj(x, loose_str=False, strlen=False):
         r = ("inst", NoNum, t.__name__)
     elif t is w["LieStr"]:
         r = ("liar", NoNum, "str")
+    elif t.__name__.startswith(("V_", "VP_")):
+        r = ("self", NoNum, "")
     elif t.__name__ in ("weakproxy", "ProxyType"):
         r = ("proxy", NoNum, "A")
     elif t is types.ModuleType:
@@ -202,6 +204,8 @@ def trait_of(cfg):
         return T.ValidatedTuple(*[trait_of(m) for m in cfg["ms"]], fvalidate=lambda tup: tup[0] < tup[1])
     if t == "Type":
         return T.Type(w[cfg["k"]], allow_none=cfg["an"])
+    if t == "This":
+        return T.This(allow_none=cfg["an"])
     if t == "Callable":
         return T.Callable(allow_none=cfg["an"])
     if t == "Tuple":
@@ -351,6 +355,10 @@ def execute(cfg, tok, route, via=None):
         return {"cfg": cfg, "tok": tok, "route": route, "a": o, "f": o, "p": o, "frame": 1, "msg": 1, "sh": proj(None),
                 "via": via or "", "skip": 1}
     v = w["toks"][tok]
+    if tok in ("oSelf", "t_selfa"):
+        # an instance of the class of the object the assignment is made on
+        me = cls()
+        v = me if tok == "oSelf" else (me, "a")
     loose = is_loose(cfg) and not isinstance(v, str)
     strlen = cfg["t"] == "String"
     obj = cls()
@@ -558,7 +566,7 @@ def involves(cfg, tok, pred):
         v = w["toks"][tok]
         if isinstance(v, (tuple, list)) and len(v) == len(cfg["ms"]):
             inv = {id(o): t for t, o in w["toks"].items()}
-            rev = {"t_1a": ["i1", "s_a"], "t_2h5": ["f2h", "s_5"], "t_1a1": ["i1", "s_a", "i1"], "t_12": ["i1", "i2"], "t_s10s9": ["s_10", "s_9"], "t_s9s10": ["s_9", "s_10"], "l_1a": ["i1", "s_a"], "t_": []}
+            rev = {"t_selfa": ["oSelf", "s_a"], "t_1a": ["i1", "s_a"], "t_2h5": ["f2h", "s_5"], "t_1a1": ["i1", "s_a", "i1"], "t_12": ["i1", "i2"], "t_s10s9": ["s_10", "s_9"], "t_s9s10": ["s_9", "s_10"], "l_1a": ["i1", "s_a"], "t_": []}
             its = rev.get(tok, [])
             return any(involves(m, it, pred) for m, it in zip(cfg["ms"], its))
     return False
